@@ -128,6 +128,17 @@ pub fn all() -> Vec<Prop> {
                 Batch { name: "lopdf-updates", scenario: crate::scen_c::c07_lopdf_updates, quick: 12000, thorough: 200000, varies: "IncrementalDocument load/edit/save cycles x sink and source chunking/EINTR x loader completion order" },
             ],
         },
+        Prop {
+            id: "C04",
+            level: "exploration",
+            rule: "one case = one valid artefact (rich page-tree document with Type0 font + ToUnicode CMap, Flate/LZW/ASCII85 filter chains with predictors, text strings; saved by lopdf or emitted by the reference writer with object streams / xref streams; multi-revision histories; repository assets) x 6 (quick) / 12 (thorough) variants, each hit by 1-4 storage faults (truncation, bit flips, byte bursts, digit edits, zeroed / stale / misdirected / duplicated blocks, splices; half of them aimed at structural fields) and read through load_mem, load_from on a chunking/failing/short source, or IncrementalDocument::load_from on a 2 MiB stack; every document that still loads is pushed through all decoders (filters, content, object stream, xref stream, font encoding + text decoding, text strings, page content, text extraction); plus raw faulted content streams and CMaps given to the decoders directly; \
+                   oracle: the call returns - no panic (overflow checks on), no abort, no stack overflow, no hang, largest single allocation <= 16 MiB + 4096 x input, peak heap <= 64 MiB + 4096 x input; distinct = distinct hash of the faulted image set; non-trivial = at least one fault applied",
+            assumptions: &[
+                "claimed only over the fault-reachable neighbourhood of valid artefacts, not over grammar-directed adversarial constructions (DESIGN.md 4 / C04)",
+                "stack bound = 2 MiB (default of std and rayon worker threads)",
+            ],
+            batches: vec![Batch { name: "faulted", scenario: crate::scen_f::c04_faulted, quick: 25000, thorough: 400000, varies: "storage faults on stored artefacts x read faults (short reads, EINTR, hard error, early EOF) x loader schedule x allocator budget x 2 MiB stack" }],
+        },
     ]
 }
 
